@@ -25,7 +25,8 @@ SigConv == { <<3, 1, 5>>, <<9, 9, 9, 6>>, <<3, 1, 4, 1, 6>> }
 USigConv == { <<2, 9>>, <<1, 7, 9>> }
 ExpConv == {-3, 0, 2}
 ConvAll == ConvTable
-ConvTen == { c \in ConvTable : c.from \in {"km", "cm", "m3/mol/s", "1/M/s", "mol/m3", "kJ/mol", "g", "hour", "min"} }
+ConvTen == { c \in ConvTable : c.from \in {"km", "cm", "m3/mol/s", "1/M/s", "mol/m3", "kJ/mol", "g", "hour", "min",
+                                            "1", "percent", "mM/M", "cm/m"} }
 ConvTwo == { CV("km", "m", 3), CV("1/M/s", "m3/mol/s", -3) }
 Both == {FALSE, TRUE}
 Pos == {FALSE}
@@ -40,13 +41,15 @@ Opts_num == { O("number", TRUE, "g", "float", "", NoConv), O("rxnstring", TRUE, 
               O("number", FALSE, "e", "npfloat", "", NoConv) }
 Opts_unc == { O("number", FALSE, "g", "float", "km", ConvOf("m", "km")), O("number", FALSE, "g", "float", "s", ConvOf("hour", "s")),
               O("number", TRUE, "g", "float", "km", ConvOf("cm", "m")), O("number", FALSE, "g", "npfloat", "min", ConvOf("hour", "min")),
-              O("number", FALSE, "g", "float", "kg", NoConv) }
+              O("number", FALSE, "g", "float", "kg", NoConv), O("number", FALSE, "g", "float", "percent", NoConv),
+              O("number", TRUE, "g", "float", "mM/M", NoConv), O("number", FALSE, "g", "float", "percent", ConvOf("mM/M", "percent")),
+              O("number", FALSE, "g", "npfloat", "1", ConvOf("percent", "1")) }
 Opts_all == Opts_num \cup Opts_unc
 Opts_cover == { O("number", TRUE, "g", "float", "", NoConv), O("number", FALSE, "g", "float", "km", ConvOf("cm", "m")) }
 SigOpt == { <<3, 1, 4, 1, 6>>, <<9, 9, 9, 9, 9, 6>>, <<1>> }
 ExpOpt == {-7, 0, 4}
 USigOpt == { <<2, 9>> }
-ConvOpt == { ConvOf("km", "m"), ConvOf("hour", "s") }
+ConvOpt == { ConvOf("km", "m"), ConvOf("hour", "s"), ConvOf("1", "percent") }
 SL_opts_q == [Signs |-> Both, Sigs |-> SigOpt, Exps |-> ExpOpt, Precs |-> {2, 3, 5}, UncSigs |-> USigOpt, UncOffs |-> {2, 5},
               UncPrecs |-> {1, 2}, Units |-> {}, Convs |-> ConvOpt, UncSrcs |-> {"arg", "attr"}, RomanMax |-> 60,
               Opts |-> Opts_all, RomanTypes |-> {"int", "npint"}]
